@@ -479,6 +479,8 @@ CORPUS = [
     "'abc", "\"abc\n\"", "'''abc", "'a\\", "f'{x}' f'''{\nx}'''", "rb", "rb + 1", "b", "f\"", "r'''a\\'''b'''",
     "match x:\n  case 1: pass\n", "match = 1\n", "match(x)\n", "match[x]: int\n", "print(match)\n", "match x: pass",
     "type X = int\n", "type(x)\n", "type = 3\n", "type X[T] = list[T]\n", "type type = type\n", "x = type\n",
+    # the `type` look-ahead meets Comment / NonLogicalNewline tokens (full-lexer; repaired by e335017)
+    "type X[(] # c\n= int)\n", "type X[(]\n\n# c\n= int)\n", "type X[T] = (  # c\n\n  int)\n", "type X[\n# c\nT] = int\n",
     "case = 1\n", "match x:\n    case [a, b]: pass\n    case {'k': v}: pass\n", "match lambda: 1:\n  case _: pass\n",
     "match x, y:\n case 1, 2: pass\n", "match (\nx\n):\n case 1: pass\n", "if x:\n    match y:\n        case 1: pass\n",
     "# c\nmatch x:\n  case 1: pass\n", "\n\nmatch x:\n  case 1: pass\n", "class A:\n  type X = int\n  # c\n  type Y = int\n",
